@@ -287,8 +287,18 @@ def run_calls_async(G, cfg, calls, handler, timeout=1.0, max_items=2000, session
         def datagram_received(self, data, addr):
             received.append(data)
             try:
+                loop = asyncio.get_running_loop()
                 for out in handler(data) or []:
-                    self.transport.sendto(out, addr)
+                    # a float is a pause before the next datagram; datagrams leave strictly in the order the handler
+                    # produced them, also across requests (as with the sequential agent thread of the sync driver)
+                    now = loop.time()
+                    if isinstance(out, float):
+                        self.busy_until = max(now, getattr(self, "busy_until", 0.0)) + out
+                    elif getattr(self, "busy_until", 0.0) > now:
+                        self.busy_until += 1e-4
+                        loop.call_at(self.busy_until, self.transport.sendto, out, addr)
+                    else:
+                        self.transport.sendto(out, addr)
             except Exception as e:  # noqa: BLE001
                 errors.append(repr(e))
 
